@@ -612,6 +612,7 @@ func strmRunOne(s *strmSpec) *strmOutcome {
 	faultsReleased := 0 // err-class outcomes released
 	nolinkReleased := []int{}
 	hang := false
+	confirmations := 0
 	for step := 0; ; step++ {
 		if err := strmWaitQuiescent(30 * time.Second); err != nil {
 			hang = true
@@ -641,8 +642,22 @@ func strmRunOne(s *strmSpec) *strmOutcome {
 			nEnabled++
 		}
 		if nEnabled == 0 {
-			break
+			// Nothing to release. Either the run is over, or every goroutine is blocked for good (a
+			// deadlock), or the snapshot caught a goroutine that was about to make progress without being
+			// runnable yet (a netpoller or timer wake-up, a goroutine in a system call). A deadlock is only
+			// declared when the state persists over real time.
+			cmu.Lock()
+			fin := finished
+			cmu.Unlock()
+			if fin || confirmations >= 4 {
+				break
+			}
+			confirmations++
+			time.Sleep(time.Duration(25<<confirmations) * time.Millisecond)
+			step-- // not a new quiescent point
+			continue
 		}
+		confirmations = 0
 		pick := 0
 		if nEnabled > 1 {
 			if s.late >= 0 {
@@ -705,7 +720,12 @@ func strmRunOne(s *strmSpec) *strmOutcome {
 		fail("the stream never signalled its end (%d calls of next)", 3*s.n+9)
 	}
 	if !finished {
-		fail("DEADLOCK: every goroutine is blocked, no RPC is outstanding and the consumer is still waiting (delivered %v, cancelled %v)", delivered, cancelled)
+		n := runtime.Stack(strmStackBuf, true)
+		dump := string(strmStackBuf[:n])
+		if len(dump) > 6000 {
+			dump = dump[:6000]
+		}
+		fail("DEADLOCK: every goroutine is blocked, no RPC is outstanding and the consumer is still waiting, and this persisted for 0.7 s (delivered %v, cancelled %v); goroutines: %s", delivered, cancelled, strings.ReplaceAll(dump, "\n", " | "))
 	}
 	// a non-linking block counts as a fault where links are checked: ordered streaming of a block after the first
 	// (a replaced first block breaks the link of its successor, when there is one)
